@@ -162,3 +162,16 @@ theorem All.path {Q : σ → σ → Prop} {I : σ → Prop} (hI : ∀ s s', Q s 
     exact .txn _ l f (fun _ s' => I s') (fun s hs => ⟨hI _ _ (h1 s) hs, hI _ _ (h1 s) hs⟩) (fun s _ => ih s)
 
 end Placement.Crash
+
+namespace Placement.Crash
+open Placement
+variable {σ α : Type}
+
+/-- to show `Path G K p` one may assume that some state satisfies `K` -/
+theorem Path.of_inhabited {G : σ → Prog σ α → Prop} {K : σ → Prop} {p : Prog σ α}
+    (h : ∀ s, K s → Path G K p) : Path G K p := by
+  by_cases he : ∃ s, K s
+  · obtain ⟨s, hs⟩ := he; exact h s hs
+  · exact Path.absurd p (fun s hs => he ⟨s, hs⟩)
+
+end Placement.Crash
